@@ -276,6 +276,15 @@ def build_cells(lib):
         for rows_ in (1, 2, 4, 6, 9):  # matrix is 3 x 3: every other row count of the right-hand side is a shape-coupled mismatch
             out("QGMRESSolver.solve", f"mismatched_rhs_rows={rows_}_prec={prec_}", (lambda p_: (lambda A, b: sv.QGMRESSolver(preconditioner=p_).solve(A, b)))(prec_), Q(A33), Q(gen(rows_, 1, 5)))
         out("QGMRESSolver.solve", f"mismatched_rhs_two_columns_prec={prec_}", (lambda p_: (lambda A, b: sv.QGMRESSolver(preconditioner=p_).solve(A, b)))(prec_), Q(A33), Q(gen(3, 2, 5)))
+    # the same shape-coupled mismatches with the component-tuple container for b and / or A (the fallback branch of the converters)
+    for prec_ in (None, "left_lu"):
+        for rows_ in (1, 2, 4, 6):
+            btuple = tuple(_c for _c in np.moveaxis(gen(rows_, 1, 5), -1, 0))
+            out("QGMRESSolver.solve", f"mismatched_rhs_tuple_rows={rows_}_prec={prec_}", (lambda p_: (lambda A, b: sv.QGMRESSolver(preconditioner=p_).solve(A, b)))(prec_), Q(A33), btuple)
+            if prec_ is None:
+                Atuple = tuple(_c for _c in np.moveaxis(A33, -1, 0))
+                out("QGMRESSolver.solve", f"mismatched_rhs_tupleA_rows={rows_}", (lambda A, b: sv.QGMRESSolver().solve(A, b)), Atuple, Q(gen(rows_, 1, 5)))
+                out("QGMRESSolver.solve", f"mismatched_rhs_tupleA_tupleb_rows={rows_}", (lambda A, b: sv.QGMRESSolver().solve(A, b)), Atuple, btuple)
     out("QGMRESSolver.solve", "complex_dtype", lambda A, b: sv.QGMRESSolver().solve(A, b), cplx3.copy(), np.ones((3, 1), dtype=complex))
     out("QGMRESSolver.solve", "unknown_option_preconditioner", lambda A, b: sv.QGMRESSolver(preconditioner="ilu").solve(A, b), Q(A33), Q(b3))
     inn("QGMRESSolver.solve", "boundary_1x1", lambda A, b: sv.QGMRESSolver().solve(A, b), Q(spd_tall(1, 1)), Q(gen(1, 1, 3)))
